@@ -20,11 +20,17 @@
 (*                "none"), s.size, s.kinderr, s.byteval                        *)
 (*                                                                            *)
 (* Deliberate deviations (named):                                              *)
-(*   LimitedOnly  only streams with an input limit are modelled (DecodeBytes,  *)
+(*   LimitedOnly  the models use streams with an input limit (DecodeBytes,     *)
 (*                NewStream over bytes.Reader / with an explicit limit).       *)
-(*                Without a limit the code allocates whatever a header claims  *)
+(*                Without a limit (field lim = FALSE: rlp.Decode / NewStream(r,*)
+(*                0) over a plain io.Reader, NewStreamU below) a STRING header *)
+(*                makes Bytes / Raw / BigInt allocate what it claims           *)
 (*                (documented at rlp.Decode); C16 speaks of "sizes within the  *)
-(*                input limit".                                                *)
+(*                input limit".  A LIST header never sizes an allocation, with *)
+(*                or without a limit: slices grow with the elements actually   *)
+(*                decoded (decodeSliceElems: capacity 4, then +50%).  That is  *)
+(*                what MC_RLPLists states, in both modes, with the bound       *)
+(*                AllocBound below for the real allocation.                    *)
 (*   HugeSize     a declared size of more than three bytes exceeds every       *)
 (*                limit of a model; s.size is then recorded as 0 together      *)
 (*                with the error (no operation reads s.size after an error).   *)
@@ -44,8 +50,20 @@ EXTENDS RLP
 Wrap == 1073741824     \* 2^30, stands for 2^64 - k
 
 NewStream(in, limit) ==
-  [in |-> in, pos |-> 0, rem |-> limit, stack |-> <<>>,
+  [in |-> in, pos |-> 0, rem |-> limit, lim |-> TRUE, stack |-> <<>>,
    kind |-> "none", size |-> 0, kerr |-> "ok", bv |-> 0]
+\* no input limit: s.limited = false (Reset with inputLimit 0 over a reader that is not a
+\* bytes.Reader / bytes.Buffer / strings.Reader).  Declared sizes stay below 2^24 in the models.
+NewStreamU(in) == [NewStream(in, 0) EXCEPT !.lim = FALSE]
+
+\* The real allocation of ONE decoder call on an input of n bytes that decodes k elements into its
+\* outermost slice (k = 0 for other targets) is specified to stay below
+\*     AllocC2 + AllocC1 * n + AllocGrow * (k + 4) * (size of one element)
+\* bytes: a fixed overhead (stream, reader buffer, reflection, error values), the bytes that are
+\* copied out of the input, and the geometric growth of the slice - never a header's claim.
+AllocC1   == 2
+AllocC2   == 8192
+AllocGrow == 6
 
 InList(s) == Len(s.stack) > 0
 Top(s)    == s.stack[Len(s.stack)]
@@ -59,7 +77,8 @@ WillRead(s, n) ==
   LET s1 == [s EXCEPT !.kind = "none"] IN                               \* s.kind = -1 // rearm Kind
   IF InList(s1) /\ n > Top(s1) THEN [s |-> s1, err |-> "elem_too_large"]
   ELSE LET s2 == IF InList(s1) THEN [s1 EXCEPT !.stack[Len(s1.stack)] = @ - n] ELSE s1 IN
-       IF n > s2.rem THEN [s |-> s2, err |-> "too_large"]
+       IF ~s2.lim THEN [s |-> s2, err |-> "ok"]                         \* "if s.limited"
+       ELSE IF n > s2.rem THEN [s |-> s2, err |-> "too_large"]
        ELSE [s |-> [s2 EXCEPT !.rem = @ - n], err |-> "ok"]
 
 \* readByte
@@ -118,7 +137,7 @@ Kind(s) ==
         r      == ReadKindS(s)
         kerr   == IF r.err # "ok" THEN r.err
                   ELSE IF InList(s) /\ (r.huge \/ r.size > limit0) THEN "elem_too_large"
-                  ELSE IF r.huge \/ r.size > r.s.rem THEN "too_large"     \* s.remaining AFTER the header
+                  ELSE IF r.s.lim /\ (r.huge \/ r.size > r.s.rem) THEN "too_large"     \* s.remaining AFTER the header
                   ELSE "ok"
         s2     == [r.s EXCEPT !.kind = r.kind, !.size = r.size, !.kerr = kerr]
     IN [s |-> s2, err |-> kerr, kind |-> r.kind, size |-> r.size]
